@@ -301,6 +301,8 @@ if_harness!(branch_if_else, false, false);
 // did not finish within 600 s / 14 GB (kept for reference, no tier enables it)
 #[cfg(feature = "verif_experimental")]
 if_harness!(branch_if_else_folded, true, false);
+// round two: 525 s; round three: out of memory (14 GB) - unreliable, no tier enables it
+#[cfg(feature = "verif_experimental")]
 if_harness!(branch_if_const_cond_folded, true, true);
 
 /// assignment: target then value; the update reads the cell after the value was evaluated
